@@ -117,7 +117,9 @@ MemoClash(e) == IsRO(e) /\ e.fn \in DOMAIN memo /\ memo[e.fn] # e.res
 MemoNext(e) == IF ~IsRO(e) THEN <<>>
                ELSE IF e.fn \in DOMAIN memo THEN memo ELSE memo @@ (e.fn :> e.res)
 
-Judge(t, k) == LET c == Clauses(t, k) \cup (IF MemoClash(Traces[t].events[k]) THEN {"result-depends-on-what-ran-before"} ELSE {}) IN
+RegistryGrew(e) == IsRO(e) /\ "regdelta" \in DOMAIN e /\ e.regdelta # 0        \* the whole registry, not only this tree's ids
+Judge(t, k) == LET c == Clauses(t, k) \cup (IF MemoClash(Traces[t].events[k]) THEN {"result-depends-on-what-ran-before"} ELSE {})
+                         \cup (IF RegistryGrew(Traces[t].events[k]) THEN {"registry-size-changed"} ELSE {}) IN
                IF c = {} THEN TRUE ELSE PrintT(ToJson([k |-> "REJECT", trace |-> t, event |-> k, clauses |-> c]))
 
 Init == tid = 1 /\ l = 0 /\ memo = <<>>
